@@ -27,7 +27,7 @@ ASSUMPTIONS = [
 ]
 
 
-def unit():
+def unit(virt=False):
     m = registry.mods()
     A = m.arm_v6.ArmV6
     D = m.enums.DAbort
@@ -35,18 +35,21 @@ def unit():
     tcode = {MT.NORMAL: PM.NORMAL, MT.DEVICE: PM.DEVICE, MT.STRONGLY_ORDERED: PM.STRONGLY_ORDERED}
     kcode = {D.TRANSLATION: VM.TRANSLATION, D.ACCESS_FLAG: VM.ACCESS_FLAG, D.DOMAIN: VM.DOMAIN, D.PERMISSION: VM.PERMISSION,
              D.ALIGNMENT: VM.ALIGNMENT}
-    uid = 'C15/fn:%s.ArmV6.translate_address_v[stage1,short-descriptor]' % A.__module__
+    uid = 'C15/fn:%s.ArmV6.translate_address_v[stage1,short-descriptor%s]' % (A.__module__, ',virt-ext present,stage 2 off' if virt else '')
 
     def symbolic(eng):
         log = eng.register([])
         hub = c13.AbsHub(eng, log)
-        mach = MC.SymMachine(eng, 'VMSA', 1, mem=hub, cfg_fixed={'have_virt_ext': False})
+        mach = MC.SymMachine(eng, 'VMSA', 1, mem=hub, cfg_fixed=({'have_virt_ext': True, 'have_security_ext': True, 'have_lpae': True} if virt else {'have_virt_ext': False}))
         cpu = mach.cpu
         init = dict(mach.init)
         cfg = mach.configs
         mode0 = bits(init['cpsr'], 4, 0)
         eng.assume(lnot(ST.bad_mode(mode0, cfg['have_security_ext'], cfg['have_virt_ext'])))
         eng.assume(mode0 != ST.HYP)
+        if virt:
+            # stage 2 inactive: Secure state, or HCR.VM == 0 (the second stage is outside every unit, DESIGN 14.16)
+            eng.assume(lor(ST.is_secure(init), bit(init['hcr'], 0) == 0))
         eng.assume(bit(init['ttbcr'], 31) == 0)                      # EAE
         eng.assume(bit(init['sctlr'], 17) == 0)                      # HA
         eng.assume(bit(init['sctlr'], 28) == 1)                      # TRE
@@ -134,7 +137,7 @@ def unit():
         eng.oblige_all('post', 'shareability and cacheability attributes (PRRR/NMRR remap)', named)
 
     def replay(inputs, ob):
-        cpu = MC.native_cpu('VMSA', 1, overrides={'have_virt_ext': False}, fresh=True)
+        cpu = MC.native_cpu('VMSA', 1, overrides=({'have_virt_ext': True, 'have_security_ext': True, 'have_lpae': True} if virt else {'have_virt_ext': False}), fresh=True)
         ins = dict(inputs)
         MC.install_native(cpu, ins, 'VMSA', 1)
         init = MC.read_native(cpu, 'VMSA', 1)
@@ -200,24 +203,27 @@ def unit():
                 meta={'function': '%s.ArmV6.translate_address_v' % A.__module__, 'also': ALSO_MEM})
 
 
-def unit_ld():
+def unit_ld(virt=False):
     """stage 1, Long-descriptor format (TTBCR.EAE == 1), outside Hyp mode, no Virtualization Extensions"""
     m = registry.mods()
     A = m.arm_v6.ArmV6
     MT = m.memory_attributes.MemType
     tcode = {MT.NORMAL: PM.NORMAL, MT.DEVICE: PM.DEVICE, MT.STRONGLY_ORDERED: PM.STRONGLY_ORDERED}
-    uid = 'C15/fn:%s.ArmV6.translate_address_v[stage1,long-descriptor]' % A.__module__
+    uid = 'C15/fn:%s.ArmV6.translate_address_v[stage1,long-descriptor%s]' % (A.__module__, ',virt-ext present,stage 2 off' if virt else '')
 
     def symbolic(eng):
         log = eng.register([])
         hub = c13.AbsHub(eng, log)
-        mach = MC.SymMachine(eng, 'VMSA', 1, mem=hub, cfg_fixed={'have_virt_ext': False})
+        mach = MC.SymMachine(eng, 'VMSA', 1, mem=hub, cfg_fixed=({'have_virt_ext': True, 'have_security_ext': True, 'have_lpae': True} if virt else {'have_virt_ext': False}))
         cpu = mach.cpu
         init = dict(mach.init)
         cfg = mach.configs
         mode0 = bits(init['cpsr'], 4, 0)
         eng.assume(lnot(ST.bad_mode(mode0, cfg['have_security_ext'], cfg['have_virt_ext'])))
         eng.assume(mode0 != ST.HYP)
+        if virt:
+            # stage 2 inactive: Secure state, or HCR.VM == 0 (the second stage is outside every unit, DESIGN 14.16)
+            eng.assume(lor(ST.is_secure(init), bit(init['hcr'], 0) == 0))
         eng.assume(bit(init['ttbcr'], 31) == 1)                      # EAE
         eng.assume(bit(init['sctlr'], 0) == 1)                       # MMU on (off: the short-descriptor unit)
         va = eng.fresh_int('va', 32)
@@ -288,7 +294,7 @@ def unit_ld():
             ('outershareable', lor(dc, lnot(sp['type_defined']), sym.eq(sym.truth(ma.attrs['outershareable']), sym.truth(sp['outershareable']))))])
 
     def replay(inputs, ob):
-        cpu = MC.native_cpu('VMSA', 1, overrides={'have_virt_ext': False}, fresh=True)
+        cpu = MC.native_cpu('VMSA', 1, overrides=({'have_virt_ext': True, 'have_security_ext': True, 'have_lpae': True} if virt else {'have_virt_ext': False}), fresh=True)
         ins = dict(inputs)
         MC.install_native(cpu, ins, 'VMSA', 1)
         init = MC.read_native(cpu, 'VMSA', 1)
@@ -352,4 +358,4 @@ def unit_ld():
 
 
 def units(tier):
-    return [unit(), unit_ld()]
+    return [unit(), unit_ld(), unit(True), unit_ld(True)]
